@@ -86,7 +86,8 @@ sp_colorder(SuperMatrix *A, int_t *perm_c, superlumt_options_t *options,
     AC->nrow        = A->nrow;
     AC->ncol        = A->ncol;
     Astore          = A->Store;
-    ACstore = AC->Store = (void *) malloc( sizeof(NCPformat) );
+    ACstore = AC->Store = (void *) SUPERLU_MALLOC( sizeof(NCPformat) );
+    if ( !ACstore ) SUPERLU_ABORT("SUPERLU_MALLOC fails for ACstore");
     ACstore->nnz    = Astore->nnz;
     ACstore->nzval  = Astore->nzval;
     ACstore->rowind = Astore->rowind;
